@@ -75,6 +75,14 @@ FRAGMENT_HISTORY = [
                                "call:user-fn-args": 27, "call:string_len": 26,
                                "go-const-expr (operation on literals, not exact)": 14, "if:type": 12,
                                "float literal": 10, "dyn parameter": 10, "match:literal-arms": 9}},
+    {"stage": "+ trait objects (EToDyn, method calls through the vtable) in InGoFragmentD, under the decidable hypothesis "
+              "ImplsOK on the program's dispatch table (checked by the harness on every program: holds for all of them); "
+              "integers of the fragment are in range (HasTy)",
+     "inside": 5493, "inside_with_trait_objects_only": 193, "functions": 6160,
+     "first_reasons_outside": {"callee outside": 164, "same let re-declared in two match clauses": 134,
+                               "call:user-fn-args": 36, "call:string_len": 34,
+                               "go-const-expr (operation on literals, not exact)": 23, "if:type": 12,
+                               "float literal": 10, "match:literal-arms": 9}},
 ]
 
 
@@ -143,7 +151,7 @@ def evaluate(ctx):
         elif r[1] == "STAGE":
             stages.setdefault(r[0], {})[r[2]] = r[3]
         elif r[1] == "CASE" and len(r) >= 7:
-            cases[r[0]] = r[2:7]
+            cases[r[0]] = r[2:8]      # offset, env, anf, go(fresh), go(pipeline)[, impls]
         elif r[1] == "FAIL":
             found.append(({"oracle": "go_file-run", "kind": "panic"}, "go::compile::go_file panics on the ANF file the pipeline produced",
                           {"id": r[0], "src": srcs.get(r[0]), "panic": vlib.unesc(r[3]) if len(r) > 3 else ""}))
@@ -189,9 +197,16 @@ def evaluate(ctx):
             if whys["main"] in ("in", "in(typed)"):
                 frag["programs_with_main_inside(compile_preserves_run applies)"] = \
                     frag.get("programs_with_main_inside(compile_preserves_run applies)", 0) + 1
+            elif whys["main"] == "in(dyn)":
+                frag["programs_with_main_inside_InGoFragmentD_and_ImplsOK(compile_preserves_run_dyn applies)"] = \
+                    frag.get("programs_with_main_inside_InGoFragmentD_and_ImplsOK(compile_preserves_run_dyn applies)", 0) + 1
         for name, why in _kv(r[3]):
             frag["functions"] += 1
-            if why in ("in", "in(typed)"):
+            if why.startswith("in(dyn"):
+                frag["inside_with_trait_objects_only(InGoFragmentD)"] = frag.get("inside_with_trait_objects_only(InGoFragmentD)", 0) + 1
+                if why != "in(dyn)":
+                    frag["of_those_ImplsOK_fails"] = frag.get("of_those_ImplsOK_fails", 0) + 1
+            elif why in ("in", "in(typed)"):
                 frag["inside"] += 1
                 frag["inside_and_EQ"] += verdicts.get(name) in ("EQ", "PRUNED")
                 frag["inside_and_typed_theorem_applies(stdFn)"] += why == "in(typed)"
